@@ -45,6 +45,10 @@ class StepLimit(BaseException):
     pass
 
 
+class Stuck(BaseException):
+    """The loop thread waited a long time for a signal the reader thread had been released to submit."""
+
+
 def run_session(case):
     fuel, specs, typed, quit_, run_empty, actions = case[:6]
     kinds = case[6] if len(case) > 6 else None      # optional: kinds[i] != "plain" = use the REAL stock class (harness/adv_specs.py)
@@ -99,7 +103,10 @@ def run_session(case):
         def get(self, block=True, timeout=None):
             if self.empty() and threading.current_thread() is main_thread:
                 loop_idle()
-            item = super().get(True, 20)
+            try:
+                item = super().get(True, 60)
+            except _queue.Empty:
+                raise Stuck()
             st["lastget"] = (sid_of[id(sig_of_entry(item))], self.qid)
             return item
 
@@ -547,6 +554,8 @@ def run_session(case):
                     outcomes.append(0)
                 except SessionEnd:
                     outcomes.append(4); break
+                except Stuck:
+                    return ["HANG"]
                 except StepLimit:
                     outcomes.append(5); break
                 except ExitMainLoop:
